@@ -114,7 +114,7 @@ def read_guards(mod: Module, fn: ast.AST) -> List[Dict[str, Any]]:
             kills = {nd.id for nd in g.nodes if nd.stmt is not None and nd.kind in ("stmt", "loop") and nd.id != rn.id and var in _names_stored(nd.stmt)} | {rn.id}
             region = g.reach_from_successors(rn.id, avoid=kills, labels=normal_edge)
             uses = [g.nodes[i] for i in region if g.nodes[i].stmt is not None and g.nodes[i].kind in ("stmt", "test", "loop")
-                    and var in _names_loaded(g.nodes[i].stmt) and i not in guards]
+                    and var in _names_loaded(g.nodes[i].stmt) and i not in guards and not isinstance(g.nodes[i].stmt, ast.Raise)]
             if not uses:
                 continue
             gset = set(guards) & region
@@ -130,7 +130,7 @@ def read_guards(mod: Module, fn: ast.AST) -> List[Dict[str, Any]]:
                 short_label = "true" if guards[gid] else "false"
                 starts = [m for m, lab in g.succ[gid] if lab == short_label]
                 reach = g.reachable(starts, avoid=kills, labels=normal_edge)
-                bad = [g.nodes[i] for i in reach if i == g.exit.id or (g.nodes[i].stmt is not None and g.nodes[i].kind == "stmt" and (
+                bad = [g.nodes[i] for i in reach if i == g.exit.id or (g.nodes[i].stmt is not None and g.nodes[i].kind == "stmt" and not isinstance(g.nodes[i].stmt, ast.Raise) and (
                     var in _names_loaded(g.nodes[i].stmt) or any(isinstance(x, (ast.Yield, ast.YieldFrom)) for x in own_nodes(g.nodes[i].stmt))))]
                 # nodes after which the loop continues with the next read are fine only if they raise first
                 leaves_loop = any(i in kills for i in g.reachable(starts, labels=normal_edge) if i != gid) and False
@@ -157,6 +157,36 @@ def read_guards(mod: Module, fn: ast.AST) -> List[Dict[str, Any]]:
     return out
 
 
+_exact_cache: Dict[int, Dict[str, int]] = {}
+
+
+def exact_readers(mod: Module) -> Dict[str, int]:
+    """module-level helpers whose summary is "returns exactly N bytes read from the stream or raises":
+    name -> index of the size parameter"""
+    key = id(mod)
+    if key in _exact_cache:
+        return _exact_cache[key]
+    out: Dict[str, int] = {}
+    for q, fn in mod.functions():
+        if "." in q or not isinstance(fn, ast.FunctionDef):
+            continue
+        sites = _read_sites(fn)
+        if len(sites) != 1:
+            continue
+        st, var, nexpr = sites[0]
+        params = [a.arg for a in fn.args.args]
+        if not isinstance(nexpr, ast.Name) or nexpr.id not in params:
+            continue
+        rets = [n for n in ast.walk(fn) if isinstance(n, ast.Return)]
+        if not rets or not all(isinstance(r.value, ast.Name) and r.value.id == var for r in rets):
+            continue
+        g = read_guards(mod, fn)
+        if g and all(r["guarded"] for r in g):
+            out[q] = params.index(nexpr.id)
+    _exact_cache[key] = out
+    return out
+
+
 def slice_sites(fn: ast.AST) -> List[Tuple[ast.stmt, ast.Subscript]]:
     """payload slices value[i : i + N] / value[i : j] taken from a buffer inside a decode loop"""
     out = []
@@ -178,7 +208,7 @@ def _reader_paths(ctx, mod: Module, qual: str, w: int, **kw) -> List[Path]:
 
     fn = mod.func(qual)
     wt = wire_type_local(fn)
-    paths = Interp(mod, local_bindings={wt: w}, fresh_calls=["read", "load_varint", "decode_varint"], **kw).run(fn)
+    paths = Interp(mod, local_bindings={wt: w}, fresh_calls=["read", "load_varint", "decode_varint"] + list(exact_readers(mod)), **kw).run(fn)
     ctx.count(len(paths))
     return paths
 
@@ -300,7 +330,11 @@ def rule_M3(ctx) -> None:
     lf = mod.func("load_fields")
     # single-byte reads are tag / varint bytes: their end-of-input discipline is decided by N3 and M3b
     res = [r for r in read_guards(mod, lf) if r["n"] != "1"]
-    ctx.floor("M3", "stream reads in load_fields", len(res), 3)
+    helpers = exact_readers(mod)
+    hcalls = [c for c in ast.walk(lf) if isinstance(c, ast.Call) and isinstance(c.func, ast.Name) and c.func.id in helpers]
+    for c in hcalls:
+        ctx.proved("M3", f"load_fields:{ast.unparse(c)}", mod.loc(c), f"{c.func.id} raises unless it read exactly the requested number of bytes")
+    ctx.floor("M3", "stream reads in load_fields", len(res) + len(hcalls), 3)
     for r in res:
         name = f"load_fields:read({r['n']})"
         if r["guarded"]:
@@ -365,7 +399,7 @@ def rule_M3b(ctx) -> None:
                             clean.add(ast.unparse(h.type))
     if not clean:
         # no exception-based signal: the generator may only end under an emptiness test of the iteration's first read
-        paths = Interp(mod, fresh_calls=["read", "load_varint", "decode_varint"]).run(lf)
+        paths = Interp(mod, fresh_calls=["read", "load_varint", "decode_varint"] + list(exact_readers(mod))).run(lf)
         ctx.count(len(paths))
         ends = [p for p in paths if p.outcome in ("return", "fall") and not any(e.kind == "yield" for e in p.events)]
         if not ends:
@@ -639,13 +673,14 @@ def rule_U1(ctx) -> None:
                 if e.kind != "call" or e.depth:
                     continue
                 nm = dotted(e.data[1])
-                if nm.endswith(".read"):
+                if nm.endswith(".read") or nm in exact_readers(mod):
                     consumed.append(e.data)
                 elif nm == "load_varint":
                     consumed.append(("item", e.data, 1))
             sites += len(consumed)
             parts = _sum_parts(raw) if raw is not None else []
-            missing = [c for c in consumed if c not in parts]
+            # a byte read ahead and handed to the next consuming call (load_varint(stream, first)) is part of that call's raw
+            missing = [c for c in consumed if c not in parts and not any(contains(x, c) for x in parts if x != c)]
             extra = [x for x in parts if x not in consumed and x != C(b"")]
             dup = len(parts) != len(set(parts))
             name = f"load_fields:raw[wire {w}]"
@@ -657,7 +692,7 @@ def rule_U1(ctx) -> None:
                             "Old().parse(new_bytes) then bytes(...) for an unknown field of this wire type")
             else:
                 # order must be the order of consumption
-                if [c for c in consumed] != parts:
+                if [c for c in consumed if c in parts] != parts:
                     ctx.refuted("U1", name, "order", mod.loc(lf), f"raw is assembled out of order: {[show(x) for x in parts]}")
                 else:
                     ctx.proved("U1", name, mod.loc(lf), f"{len(consumed)} consuming calls all in raw")
